@@ -22,7 +22,7 @@ LEVEL_NOTE = "Trusted: vlib/model/refasm.py, busmodel.py, isa.py, expr.py (each 
 DESIGN_REF = "DESIGN.md §3 C03, §2.3"
 ASSUMPTIONS = ["explicit-width profile: every operand mentioning a label or = constant carries a size suffix"]
 
-PROFILE = progen.Profile()
+PROFILE = progen.Profile(text=True)
 
 
 def selftest() -> None:
@@ -46,7 +46,12 @@ def hyp_examples(tier):
 
 
 def model_files(files):
-    return {k: driver.file_bytes(v) for k, v in (files or {}).items()}
+    from vlib.model import table as T
+
+    out = {}
+    for k, v in (files or {}).items():
+        out[k] = T.parse_table_file(v) if k.endswith(".tbl") and isinstance(v, str) else driver.file_bytes(v)
+    return out
 
 
 def compare_with_model(case, out: Outcome, label_check=True, profile_name="c03"):
